@@ -104,7 +104,8 @@ def _get_volume_frustum_cone(tree: Tree, *, accuracy: int) -> float:
         if accuracy >= 3:
             v -= sum(sphere.intersect(fc).get_volume() for fc in cones)
             v -= sum(s.intersect(fc).get_volume() for s, fc in zip(children, cones))
-            v += sum(s.intersect(sphere).get_volume() for s in children)
+            # The overlap of the two end spheres lies inside the frustum cone,
+            # so its pairwise term (-) and its triple term (+) cancel out.
 
         if accuracy >= 5:
             v -= sum(
